@@ -1,6 +1,91 @@
-//! Property C08 — correspondence / expectation run (see DESIGN.md §5, C08).
+//! Property C08 — commitments are the key-defined linear map (naive sum over published key points).
+use crate::common::*;
+use crate::generic;
+use crate::kzg::*;
+use crate::wire::{self, Req};
 use crate::Ctx;
+use ark_bls12_381::{Fr, G1Projective};
+use ark_ec::{AffineRepr, CurveGroup};
+use ark_ff::{PrimeField, UniformRand, Zero};
+use ark_poly::DenseUVPolynomial;
+use std::ops::Mul;
+
+/// naive Σ cᵢ·Pᵢ by double-and-add on each term — shares no code with the library's MSM
+pub fn naive_sum(points: &[ark_bls12_381::G1Affine], coeffs: &[Fr]) -> G1Projective {
+    let mut acc = G1Projective::zero();
+    for (p, c) in points.iter().zip(coeffs) {
+        let mut term = G1Projective::zero();
+        let bits = c.into_bigint();
+        let mut base = p.into_group();
+        for limb in bits.as_ref() {
+            let mut l = *limb;
+            for _ in 0..64 {
+                if l & 1 == 1 {
+                    term += base;
+                }
+                base = base + base;
+                l >>= 1;
+            }
+        }
+        acc += term;
+    }
+    acc
+}
 
 pub fn run(ctx: &mut Ctx) {
-    let _ = ctx;
+    let n = ctx.n(40, 500);
+    for i in 0..n {
+        let id = format!("C08/kzg10/{}", i);
+        if !ctx.selected(&id) {
+            continue;
+        }
+        let mut rng = rng_for(ctx.seed, "C08/kzg10", i as u64);
+        let max_degree = range(&mut rng, 1, 32);
+        let trap = Trap::random(&mut rng, max_degree);
+        let pp = trap.params(false);
+        let supported = range(&mut rng, 1, max_degree);
+        let (powers, _vk) = trim(&pp, supported);
+        let (p, kind) = gen_poly(&mut rng, supported);
+        let (q, _) = gen_poly(&mut rng, supported);
+        let (cp, _) = Kzg::commit(&powers, &p, None, None).unwrap();
+        let (cq, _) = Kzg::commit(&powers, &q, None, None).unwrap();
+        // equals-spec: naive sum over the *published* key points
+        if naive_sum(&powers.powers_of_g, &p.coeffs).into_affine() != cp.0 {
+            ctx.rep.expect_fail(&id, "kzg10/commit-not-key-defined", "commitment differs from the naive sum over the key",
+                format!("# scheme: kzg10\n# case {}\n# p={}\n", id, wire::fes(&p.coeffs)));
+        }
+        // homomorphism on the implementation
+        let a = Fr::rand(&mut rng);
+        let b = Fr::rand(&mut rng);
+        let lin = &(&p * a) + &(&q * b);
+        let (cl, _) = Kzg::commit(&powers, &lin, None, None).unwrap();
+        if (cp.0.mul(a) + cq.0.mul(b)).into_affine() != cl.0 {
+            ctx.rep.expect_fail(&id, "kzg10/not-homomorphic", "commit(a p + b q) != a commit(p) + b commit(q)",
+                format!("# scheme: kzg10\n# case {}\n", id));
+        }
+        // zero polynomial -> identity; leading zeros irrelevant
+        let (cz, _) = Kzg::commit(&powers, &UniPoly::from_coefficients_vec(vec![Fr::zero(); 3]), None, None).unwrap();
+        if !cz.0.is_zero() {
+            ctx.rep.expect_fail(&id, "kzg10/zero-not-identity", "zero polynomial does not commit to the identity",
+                format!("# scheme: kzg10\n# case {}\n", id));
+        }
+        let mut padded = p.coeffs.clone();
+        padded.extend(vec![Fr::zero(); 2]);
+        let (cpad, _) = Kzg::commit(&powers, &UniPoly::from_coefficients_vec(padded), None, None).unwrap();
+        if cpad != cp {
+            ctx.rep.expect_fail(&id, "kzg10/representation-dependent", "leading zero coefficients changed the commitment",
+                format!("# scheme: kzg10\n# case {}\n", id));
+        }
+        // model
+        let pg = trap.pg()[..=supported].to_vec();
+        let pgg = trap.pgg()[..=supported].to_vec();
+        let req = Req::new("kzg.commit").arg("pg", wire::fes(&pg)).arg("pgg", wire::fes(&pgg))
+            .arg("p", wire::fes(&p.coeffs)).arg("hb", wire::opt_nat(None)).arg("rng", wire::boolean(false))
+            .arg("draws", wire::fes::<Fr>(&[]));
+        ctx.ses.ask(&id, req, ImplOutcome::Ok(vec![("c".into(), Expect::G1(cp.0)), ("blind".into(), Expect::Fes(vec![]))]));
+        ctx.rep.count(&format!("kzg10/poly-{}", kind));
+        ctx.rep.case(&format!("kzg10 s={} poly={} deg={}", supported, kind, p.coeffs.len()), Some(format!("kzg10/{}/{}", kind, p.coeffs.len())));
+    }
+    generic::c08_all(ctx);
+    ctx.flush_model("C08");
 }
